@@ -524,8 +524,12 @@ def wrap_case(case):
 
 
 def model_req(case, faults=(), fault_cls='ValueError'):
-    req = {'op': 'render', 'templates': [{'blocks': t['blocks'], 'globals': t['globals'], 'vars': t['vars']}
-                                         for t in case['templates']],
+    def tj(t):
+        d = {'blocks': t['blocks'], 'globals': t['globals'], 'vars': t['vars']}
+        if 'ckw' in t:
+            d['ckw'], d['cmapping'] = t['ckw'], t['cmapping']
+        return d
+    req = {'op': 'render', 'templates': [tj(t) for t in case['templates']],
            'main': case['main'], 'clients': case['clients'], 'mapping': case['mapping'], 'kw': case['kw'],
            'classes': case['classes'], 'denied': case['denied'], 'guard': case['guard'], 'utf8': case['utf8'],
            'fuel': 200000}
@@ -549,9 +553,14 @@ def run_impl(case, faults=(), fault_cls='ValueError', guard=None):
     templates = []
     for t in case['templates']:
         templates.append(cls(t['source']))
-    for t, tj in zip(templates, case['templates']):
-        g = {k: to_py(world, v, templates) for k, v in tj['globals']}
-        t.globals = g
+    for i, (t, tj) in enumerate(zip(templates, case['templates'])):
+        if 'ckw' in tj:
+            # defaults through the constructor: template(source, mapping, **keywords)
+            # (__init__ does exactly this call after storing the source)
+            t.initvars({k: to_py(world, v, templates) for k, v in tj['cmapping']},
+                       {k: to_py(world, v, templates) for k, v in tj['ckw']})
+        else:
+            t.globals = {k: to_py(world, v, templates) for k, v in tj['globals']}
         t._vars = {k: to_py(world, v, templates) for k, v in tj['vars']}
     clients = [to_py(world, c, templates) for c in case['clients']]
     mapping = {k: to_py(world, v, templates) for k, v in case['mapping']}
